@@ -621,6 +621,21 @@ theorem C19_discard_overflow (discard : Bool) (tokens : List (Bool × GunShot)) 
   · rw [instanceRunSched_nodiscard _ hw]
     simp [tokensOf, List.map_map, Function.comp_def]
 
+/-- WHEN a token is dropped: with a clock that does not run backwards, the waiter of the current source
+(`Bridge.C19.waiterWaitStmts_eq`, `waiterIsSlowDownStmts_eq`) finds a token overdue exactly when the instance asks for it
+`MaxOverdueDuration` (the current constant) or more after its time — whatever the cached clock reading was; and a run in
+which the target answers fast enough for every token to be asked for in time is the same run with and without
+`discard_overflow`: the option cannot cost a shot unless the target made the instance late. -/
+theorem C19_discard_only_when_late :
+    (∀ (due lastNow asked : Int) (shot : ShotResult), lastNow ≤ asked →
+      ((tokenAt due lastNow asked shot).slowDown = true ↔ asked - due ≥ Gen.RespGuard.maxOverdueNanos)) ∧
+    (∀ (discard : Bool) (ts : List Token), (∀ t ∈ ts, t.slowDown = false) →
+      instanceRunSched discard ts = instanceRunSched false ts) := by
+  refine ⟨?_, instanceRunSched_on_time⟩
+  intro due lastNow asked shot h
+  rw [Bridge.C19.maxOverdueNanos_eq]
+  exact isSlowDown_iff due lastNow asked h
+
 /-- The shared `NextIterator` under ANY interleaving: any number of instances (goroutines numbered below `n`), each
 calling `Next` again and again, the scheduler picking who makes the next step (lock, begin of the map access, end of
 the map access, unlock) for as long as it likes — with the mutex (the current source: `Bridge.C19.mpIterNext_locked`,
@@ -867,5 +882,9 @@ example : dnsDials {} false [.refused, .refused, .connected, .refused] =
 -- C19_sample_ownership: a failing assertion on the second step
 example : scenarioOps false [⟨"a", .received 200 .ok⟩, ⟨"b", .received 200 .err⟩, ⟨"c", .received 200 .ok⟩] =
     [[.acquire, .touch, .touch, .report], [.acquire, .touch, .touch, .touch, .touch, .report]] := by decide
+
+-- C19_discard_only_when_late: due at 1 s, asked for at 3.5 s (the previous answer took that long): overdue; at 2.9 s: not
+example : (tokenAt 1000000000 0 3500000000 {reports := []}).slowDown = true ∧
+    (tokenAt 1000000000 0 2900000000 {reports := []}).slowDown = false := by decide
 
 end Pandora.Props.C19
